@@ -1,7 +1,5 @@
-CLAIM = ("lha_crc16_buf == CRC-16/ARC: the one-byte step for all 2^24 (state, byte) pairs in one query "
-         "(complete for the step, hence table contents entry by entry); buffers up to the stated length with "
-         "symbolic length and split point: whole == piecewise == bitwise reference.")
-ASSUMPTIONS = ["buffers longer than the bound follow by induction on the verified step (argument, not a query)"]
+CLAIM = ('lha_crc16_buf == CRC-16/ARC: the one-byte step for all 2^24 (state, byte) pairs in one query (complete for the step, hence the table entry by entry); buffers of symbolic length <= 4 (8 thorough) with a symbolic split point: whole == piecewise == bitwise reference; an empty piece given as (NULL, 0) leaves every state unchanged; the buffer is read only inside [0, len) (exact-size object, pointer checks); and CONCRETE paths through the real routine for what the quantified harnesses cannot reach: every length 0..160 at four start alignments against one-byte steps, and single calls of 32768 and 65537 bytes against split calls.')
+ASSUMPTIONS = ['buffers longer than 8 bytes: induction on the verified step (argument) + the concrete sweeps (not quantified over contents: zero data, start value 0x1234)']
 U = ["lib/crc16.c"]
 HARNESSES = [
     dict(name="crc.exact.safe", src="C17/crc.c", entry="harness_exact", defines=["MAXLEN=4"], mode="safety", unwind=9, units=U, timeout=300,
